@@ -51,3 +51,25 @@ CORPUS = [
     T('c10-list-valued-x-joined-along-the-first-axis', DD, "            self.x = CatParameter('x', x, dim=-1)\n", "            self.x = CatParameter('x', x)\n", expect=[('C10.K', 'Distribution.__init__')]),
     T('c10-benign-list-valued-x-positional-axis', DD, "            self.x = CatParameter('x', x, dim=-1)\n", "            self.x = CatParameter('x', x, -1)\n", benign=True),
 ]
+CORPUS += [
+    Mut('c10-rate-matrix-scaled-by-frequencies-without-a-row-axis', 'torchtree/evolution/substitution_model/general.py', 'GeneralSymmetricSubstitutionModel.q', 'Q = R @ pi', 'Q = R * self.frequencies',
+        expect=[('C10.R', 'GeneralSymmetricSubstitutionModel.q::R * self.frequencies')]),
+    Mut('c10-benign-rate-matrix-scaled-by-frequencies-with-a-row-axis', 'torchtree/evolution/substitution_model/general.py', 'GeneralSymmetricSubstitutionModel.q', 'Q = R @ pi',
+        'Q = R * self.frequencies.unsqueeze(-2)', benign=True),
+    Mut('c10-ctmc-scale-through-torch-gamma-with-a-dropped-axis', 'torchtree/distributions/ctmc_scale.py', 'CTMCScale._call', 'return log_like',
+        'return torch.distributions.Gamma(self.shape, self.tree_model.branch_lengths().sum(-1)).log_prob(self.x.tensor)', expect=[('C10.A', 'CTMCScale._call::torch.distributions.Gamma')]),
+    Mut('c10-benign-ctmc-scale-through-torch-gamma', 'torchtree/distributions/ctmc_scale.py', 'CTMCScale._call', 'return log_like',
+        'return torch.distributions.Gamma(self.shape, self.tree_model.branch_lengths().sum(-1, keepdim=True)).log_prob(self.x.tensor)', benign=True),
+    Mut('c10-heights-stacked-in-front-then-transposed', 'torchtree/evolution/tree_height_transform.py', 'DifferenceNodeHeightTransform._call', 'return torch.cat(heights[self.taxa_count:], -1)',
+        'return torch.stack([h.squeeze(-1) for h in heights[self.taxa_count:]]).transpose(0, -1)', expect=[('C10.P', 'DifferenceNodeHeightTransform._call::torch.stack')]),
+    Mut('c10-benign-heights-stacked-along-the-last-axis', 'torchtree/evolution/tree_height_transform.py', 'DifferenceNodeHeightTransform._call', 'return torch.cat(heights[self.taxa_count:], -1)',
+        'return torch.stack([h.squeeze(-1) for h in heights[self.taxa_count:]], -1)', benign=True),
+    Mut('c10-mvn-residual-times-a-batch-of-precisions', 'torchtree/distributions/multivariate_normal.py', 'MultivariateNormal.log_prob', 'kwargs = {self.parameterization: self.parameter.tensor}',
+        "kwargs = {self.parameterization: self.parameter.tensor}\nif self.parameterization == 'precision_matrix':\n    precision = self.parameter.tensor\n    diff = x.tensor - self.loc.tensor\n    half_log_det = torch.linalg.cholesky(precision).diagonal(dim1=-2, dim2=-1).log().sum(-1)\n    return half_log_det - 0.5 * ((diff @ precision) * diff).sum(-1) - 0.5 * diff.shape[-1] * 1.8378770664093453",
+        expect=[('C10.R', 'MultivariateNormal.log_prob::diff @ precision')]),
+    Mut('c10-benign-mvn-residual-as-a-row-vector', 'torchtree/distributions/multivariate_normal.py', 'MultivariateNormal.log_prob', 'kwargs = {self.parameterization: self.parameter.tensor}',
+        "kwargs = {self.parameterization: self.parameter.tensor}\nif self.parameterization == 'precision_matrix':\n    precision = self.parameter.tensor\n    diff = (x.tensor - self.loc.tensor).unsqueeze(-2)\n    half_log_det = torch.linalg.cholesky(precision).diagonal(dim1=-2, dim2=-1).log().sum(-1)\n    return half_log_det - 0.5 * ((diff @ precision) * diff).sum(-1).squeeze(-1) - 0.5 * diff.shape[-1] * 1.8378770664093453",
+        benign=True),
+    Mut('c10-scale-mixture-counts-x-only', 'torchtree/distributions/scale_mixture.py', 'ScaleMixtureNormal._sample_shape', 'return max(…', 'return self.x.tensor.shape[:-1]',
+        expect=[('C10.C', 'ScaleMixtureNormal::sample-shape-counts-every-operand')], note='the state of the tree before 8d6ebda'),
+]
